@@ -89,8 +89,10 @@ def magnitude(draw, params, derived=(), symbolic=True, integer=False, hi=3):
     if integer:
         return {"int": draw(st.integers(1, hi))}
     c = draw(st.integers(0, 9))
+    if c <= 2:
+        return {"int": 1}
     if c <= 4:
-        return {"int": draw(st.integers(1, hi))}
+        return {"int": draw(st.integers(2, max(2, hi)))}
     if c <= 6 or not symbolic or not params:
         return {"dec": draw(st.sampled_from([0.5, 1.5, 2.5, 0.25]))}
     if c == 9 and derived:
